@@ -187,6 +187,7 @@ def clients_stage(out, rng):
         add("optQuery", {"first": None, "lst": [i], "st": [t], "last": i}, gen)
         add("attrs", {"b": "ok:x", "bee": "ok:y", "sea": 1, "pq": "ok:" + u, "hh": "ok:h", "ls": [t]}, mac)
         add("attrs", {"b": "ok:x", "bee": "ok:y", "sea": 1, "pq": "ok:z", "hh": "ok:h", "ls": ["", t, "", u]}, mac)
+    add("optQuery", {"first": "a&b", "lst": list(range(1, 1501)), "st": ["v%d" % i for i in range(1100)], "last": 3}, gen)      # thousands of pairs
     n = 0
     for obs in vc.ndjson(vc.harness("vgen", ["rpc"], stdin="\n".join(docs) + "\n")):
         endpoint, args, client, server = meta[obs["id"]]
